@@ -174,3 +174,191 @@ package graphql
 //@   ensures isType(v, "[]any") ==> res0 == v.([]any)
 //@   ensures isType(v, "string") || isType(v, "encoding/json.Number") || isType(v, "bool") || isType(v, "map[string]any") || isType(v, "float64") || isType(v, "int64") || isType(v, "int") ==> len(res0) == 1 && res0[0] == v
 //@   nopanic
+
+// ---------------------------------------------------------------- C08: JSON serialisation
+
+// UTF-8 decoding as performed by `range` over a string and utf8.DecodeRuneInString (axiomatised in the engine:
+// runeat/runew/runeok). clean(s,a,b): s[a:b] consists of whole, valid UTF-8 sequences none of which needs a
+// JSON escape (not < 0x20, not '"', not '\').
+//@ theory jsonstr
+//@ smt (define-fun spec_needsEsc ((c Int)) Bool (or (< c 32) (= c 92) (= c 34)))
+//@ smt (define-fun spec_hexval ((b Int)) Int (ite (and (<= 48 b) (<= b 57)) (- b 48) (ite (and (<= 65 b) (<= b 70)) (- b 55) (- 1))))
+//@ smt (declare-fun spec_clean (Str Int Int) Bool)
+//@ smt (assert (forall ((s Str) (a Int) (b Int)) (! (=> (= a b) (spec_clean s a b)) :pattern ((spec_clean s a b)))))
+//@ smt (assert (forall ((s Str) (a Int) (i Int)) (! (=> (and (spec_clean s a i) (<= 0 i) (< i (slen s)) (runeok s i) (not (spec_needsEsc (runeat s i)))) (spec_clean s a (+ i (runew s i)))) :pattern ((spec_clean s a i) (runew s i)))))
+//@ smt (define-fun spec_rat ((t Str) (i Int)) Int (runeat t i))
+//@ smt (define-fun spec_rw ((t Str) (i Int)) Int (runew t i))
+//@ smt (define-fun spec_isok ((t Str) (i Int)) Bool (runeok t i))
+//@ smt (assert (forall ((s Str) (i Int)) (! (=> (and (<= 0 i) (< i (slen s))) (and (= (runeat (substr s i (slen s)) 0) (runeat s i)) (= (runew (substr s i (slen s)) 0) (runew s i)) (= (runeok (substr s i (slen s)) 0) (runeok s i)))) :pattern ((substr s i (slen s))))))
+
+//@ trusted unicode/utf8.DecodeRuneInString(t) (r, size)
+//@   ensures len(t) > 0 ==> r == rat(t, 0) && size == rw(t, 0)
+//@   ensures len(t) > 0 ==> ((size == 1 && r == 65533) <==> !isok(t, 0))
+//@   nopanic
+//@   pure
+//@   uses jsonstr
+// Writers only append to their own sink: they do not write heap locations gqlgen's code reads (assumption).
+//@ trusted io.WriteString(w, s) (n, err)
+//@   nopanic
+//@   pure
+//@ trusted (io.Writer).Write(p) (n, err)
+//@   nopanic
+//@   pure
+
+// writeQuotedString against a JSON string-token typestate. Ghost cursor `emitted` = number of source bytes
+// accounted for. Verbatim writes s[a:b] must start at the cursor and be clean; every escape write at rune
+// position i must start at the cursor, be a JSON escape whose decoded code point equals the rune (or U+FFFD
+// for an invalid byte), and advances the cursor by the bytes consumed. At the end every byte is accounted for.
+//@ func writeQuotedString [C08]
+//@   uses jsonstr
+//@   ghost emitted = 0
+//@   ghost quotes = 0
+//@   at `io.WriteString(w, `"`)`#1 requires quotes == 0 && emitted == 0
+//@   at `io.WriteString(w, `"`)`#1 ghost quotes = 1
+//@   loop 1: invariant 0 <= start && start <= idx1 && idx1 <= len(s) && emitted == start && clean(s, start, idx1) && quotes == 1
+//@   at `io.WriteString(w, s[start:i])` requires emitted == start && clean(s, start, i) && quotes == 1
+//@   at `io.WriteString(w, s[start:i])` ghost emitted = i
+//@   at `io.WriteString(w, `\t`)` requires emitted == i && c == 9
+//@   at `io.WriteString(w, `\t`)` ghost emitted = i + 1
+//@   at `io.WriteString(w, `\r`)` requires emitted == i && c == 13
+//@   at `io.WriteString(w, `\r`)` ghost emitted = i + 1
+//@   at `io.WriteString(w, `\n`)` requires emitted == i && c == 10
+//@   at `io.WriteString(w, `\n`)` ghost emitted = i + 1
+//@   at `io.WriteString(w, `\\`)` requires emitted == i && c == 92
+//@   at `io.WriteString(w, `\\`)` ghost emitted = i + 1
+//@   at `io.WriteString(w, `\"`)` requires emitted == i && c == 34
+//@   at `io.WriteString(w, `\"`)` ghost emitted = i + 1
+//@   at `io.WriteString(w, `\u00`)` requires emitted == i && 0 <= c && c < 32
+//@   at `w.Write([]byte{encodeHex[c>>4], encodeHex[c&0xf]})` requires emitted == i && hexval(encodeHex[c/16])*16 + hexval(encodeHex[c%16]) == c
+//@   at `w.Write([]byte{encodeHex[c>>4], encodeHex[c&0xf]})` ghost emitted = i + 1
+//@   at `io.WriteString(w, `\ufffd`)` requires emitted == i && !isok(s, i)
+//@   at `io.WriteString(w, `\ufffd`)` ghost emitted = i + 1
+//@   at `io.WriteString(w, s[start:])` requires emitted == start && clean(s, start, len(s)) && quotes == 1
+//@   at `io.WriteString(w, s[start:])` ghost emitted = len(s)
+//@   at `io.WriteString(w, `"`)`#2 requires quotes == 1 && emitted == len(s)
+//@   at `io.WriteString(w, `"`)`#2 ghost quotes = 2
+//@   ensures emitted == len(s) && quotes == 2
+//@   ensures calls(WriteString) + calls(Write) >= 3
+//@   nopanic
+//@   pure
+//@   replay writeQuotedString.go.tmpl
+
+// Integer scalars: the closure returned by MarshalX performs exactly one write, of a decimal string whose
+// mathematical value is the value being marshaled (IDs: through writeQuotedString, i.e. as a JSON string).
+//@ trusted fmt.Fprintf(w, format, a) (n, err)
+//@   nopanic
+//@   pure
+//@ trusted math.IsInf(f, sign) (b)
+//@   nopanic
+//@   pure
+//@ trusted math.IsNaN(f) (b)
+//@   nopanic
+//@   pure
+//@ trusted errors.New(text) (err)
+//@   ensures err != nil
+//@   nopanic
+//@   pure
+
+//@ func MarshalInt$1 [C08]
+//@   callsite io.WriteString: requires numval(arg1) == i
+//@   ensures calls(WriteString) == 1 && calls(Write) == 0
+//@   nopanic
+//@ func MarshalInt64$1 [C08]
+//@   callsite io.WriteString: requires numval(arg1) == i
+//@   ensures calls(WriteString) == 1 && calls(Write) == 0
+//@   nopanic
+//@ func MarshalInt32$1 [C08]
+//@   callsite io.WriteString: requires numval(arg1) == i
+//@   ensures calls(WriteString) == 1 && calls(Write) == 0
+//@   nopanic
+//@ func MarshalUint$1 [C08]
+//@   callsite io.WriteString: requires numval(arg1) == i
+//@   ensures calls(WriteString) == 1 && calls(Write) == 0
+//@   nopanic
+//@ func MarshalUint64$1 [C08]
+//@   callsite io.WriteString: requires numval(arg1) == i
+//@   ensures calls(WriteString) == 1 && calls(Write) == 0
+//@   nopanic
+//@ func MarshalUint32$1 [C08]
+//@   callsite io.WriteString: requires numval(arg1) == i
+//@   ensures calls(WriteString) == 1 && calls(Write) == 0
+//@   nopanic
+//@ func MarshalIntID$1 [C08]
+//@   callsite writeQuotedString: requires numval(arg1) == i
+//@   ensures calls(writeQuotedString) == 1 && calls(WriteString) == 0 && calls(Write) == 0
+//@   nopanic
+//@ func MarshalUintID$1 [C08]
+//@   callsite writeQuotedString: requires numval(arg1) == i
+//@   ensures calls(writeQuotedString) == 1 && calls(WriteString) == 0 && calls(Write) == 0
+//@   nopanic
+//@ func MarshalString$1 [C08]
+//@   callsite writeQuotedString: requires arg1 == s
+//@   ensures calls(writeQuotedString) == 1 && calls(WriteString) == 0 && calls(Write) == 0
+//@   nopanic
+//@ func MarshalID [C08]
+//@   ensures calls(MarshalString) == 1
+//@   at `MarshalString(s)` requires arg0 == s
+
+// Non-finite floats are reported as errors and nothing is written; finite ones are written once.
+//@ func MarshalFloatContext$1 [C08]
+//@   ghost inf = false
+//@   ghost nan = false
+//@   at `math.IsInf(f, 0)` ghost inf = callres0
+//@   at `math.IsNaN(f)` ghost nan = callres0
+//@   at `math.IsInf(f, 0)` requires arg0 == f
+//@   at `math.IsNaN(f)` requires arg0 == f
+//@   ensures calls(IsInf) == 1
+//@   ensures inf || nan ==> res0 != nil && calls(Fprintf) == 0
+//@   ensures !inf ==> calls(IsNaN) == 1
+//@   ensures !(inf || nan) ==> res0 == nil && calls(Fprintf) == 1
+//@   nopanic
+
+// A context marshaler that fails is replaced by exactly `null` and one error.
+//@ trusted AddError(ctx, err)
+//@ func (lit).MarshalGQL [C08]
+//@   ensures calls(Write) == 1
+//@ func (contextMarshalerAdapter).MarshalGQL [C08]
+//@   ghost failed = false
+//@   at `a.MarshalGQLContext(a.Context, w)` ghost failed = callres0 != nil
+//@   ensures calls(MarshalGQLContext) == 1
+//@   ensures failed ==> calls(AddError) == 1 && calls("(github.com/99designs/gqlgen/graphql.lit).MarshalGQL") == 1
+//@   ensures !failed ==> calls(AddError) == 0 && calls("(github.com/99designs/gqlgen/graphql.lit).MarshalGQL") == 0
+
+// JSON array / object writer typestate. js: 0 = nothing written, 1 = after the opener or a complete element,
+// 2 = after a comma, 3 = after the key, 4 = after the colon, 9 = closed. n = complete elements written.
+//@ trusted (Marshaler).MarshalGQL(w)
+//@   pure
+//@ func (Array).MarshalGQL [C08,C01]
+//@   ghost js = 0
+//@   ghost n = 0
+//@   at `writer.Write(openBracket)` requires js == 0
+//@   at `writer.Write(openBracket)` ghost js = 1
+//@   at `writer.Write(comma)` requires js == 1 && n > 0 && n == i
+//@   at `writer.Write(comma)` ghost js = 2
+//@   at `val.MarshalGQL(writer)` requires n == i && ((n == 0 && js == 1) || (n > 0 && js == 2))
+//@   at `val.MarshalGQL(writer)` ghost js = 1
+//@   at `val.MarshalGQL(writer)` ghost n = n + 1
+//@   at `writer.Write(closeBracket)` requires js == 1 && n == len(a)
+//@   at `writer.Write(closeBracket)` ghost js = 9
+//@   loop 1: invariant n == idx1 && js == 1 && calls(Write) == 1 + max(idx1 - 1, 0)
+//@   ensures js == 9 && n == len(a)
+//@   ensures calls(Write) == 2 + max(len(a) - 1, 0)
+//@ func (*FieldSet).MarshalGQL [C08,C01]
+//@   requires m != nil && len(m.fields) == len(m.Values)
+//@   ghost js = 0
+//@   ghost n = 0
+//@   at `writer.Write(openBrace)` requires js == 0
+//@   at `writer.Write(openBrace)` ghost js = 1
+//@   at `writer.Write(comma)` requires js == 1 && n > 0 && n == i
+//@   at `writer.Write(comma)` ghost js = 2
+//@   at `writeQuotedString(writer, field.Alias)` requires n == i && ((n == 0 && js == 1) || (n > 0 && js == 2))
+//@   at `writeQuotedString(writer, field.Alias)` ghost js = 3
+//@   at `writer.Write(colon)` requires js == 3
+//@   at `writer.Write(colon)` ghost js = 4
+//@   at `m.Values[i].MarshalGQL(writer)` requires js == 4 && n == i && 0 <= i && i < len(m.Values)
+//@   at `m.Values[i].MarshalGQL(writer)` ghost js = 1
+//@   at `m.Values[i].MarshalGQL(writer)` ghost n = n + 1
+//@   at `writer.Write(closeBrace)` requires js == 1
+//@   at `writer.Write(closeBrace)` ghost js = 9
+//@   loop 1: invariant n == idx1 && js == 1
+//@   ensures js == 9
